@@ -4,7 +4,11 @@ Validation of the seed itself (suite passes, demo fails) was done when it was st
 re-runs the checks of the targeted properties with the patch applied to /repo (reverted after)."""
 import json, os, re, shutil, subprocess, sys, time
 
-ROOT = "/verif"
+# A second lane may run in a scratch copy (SEEDALL_ROOT = copy of /verif whose harness points at
+# SEEDALL_REPO, a scratch worktree of /repo); the stored seeds and their results stay in /verif/seeded.
+ROOT = os.environ.get("SEEDALL_ROOT", "/verif")
+REPO = os.environ.get("SEEDALL_REPO", "/repo")
+SEEDS = "/verif/seeded"
 ENV = dict(os.environ, CARGO_NET_OFFLINE="true")
 
 
@@ -14,17 +18,23 @@ def sh(cmd, cwd=None, timeout=7200):
 
 
 def main():
-    only = sys.argv[1:]
-    ids = sorted(os.listdir(os.path.join(ROOT, "seeded")))
+    only = [a for a in sys.argv[1:] if not a.startswith("--")]
+    refresh = "--refresh" in sys.argv  # forget the saved failing cases and store new ones
+    ids = sorted(os.listdir(SEEDS))
     summary = []
     for sid in ids:
         if only and sid not in only and sid[:3] not in only:
             continue
-        d = os.path.join(ROOT, "seeded", sid)
+        d = os.path.join(SEEDS, sid)
         meta = json.load(open(os.path.join(d, "meta.json")))
+        if refresh:
+            for f in os.listdir(d):
+                if f.startswith("detected."):
+                    os.remove(os.path.join(d, f))
+            meta.pop("saved_replay", None)
         props = meta.get("properties_targeted") or [sid[:3]]
         # a seed stored for one property may in the end be the business of another one as well
-        rc, out = sh(["git", "apply", os.path.join(d, "patch.diff")], cwd="/repo")
+        rc, out = sh(["git", "apply", os.path.join(d, "patch.diff")], cwd=REPO)
         if rc != 0:
             print(sid, "PATCH DOES NOT APPLY", out[:200])
             summary.append((sid, "no-apply"))
@@ -45,7 +55,7 @@ def main():
                             meta["saved_replay"] = "detected" + ext
                             break
         finally:
-            sh(["git", "checkout", "--", "."], cwd="/repo")
+            sh(["git", "checkout", "--", "."], cwd=REPO)
         meta["checks"] = res
         meta.setdefault("ran", []).append("re-evaluated with the final checks: " + ", ".join("./check %s -> rc=%d" % (p, r["rc"]) for p, r in res.items()))
         json.dump(meta, open(os.path.join(d, "meta.json"), "w"), indent=1)
